@@ -21,15 +21,12 @@ props = {
  'fix13': (['C07'], 'BootdevTag::new wrote size 24 (spec 20) and ApmTag::new wrote size 32 (spec 28)'),
  'fix14': (['C07','C12'], 'EndHeaderTag::new() created a tag of type 3 (entry address) and the struct was only 4-aligned (as_bytes() panicked at some placements)'),
  'fix15': (['C12'], 'multiboot2_header::Builder::build emitted no terminating end tag'),
+ 'fix19': (['C01'], 'VBEInfoTag::mode_info() materialised an invalid VBEMemoryModel for mode-info byte 27 > 7 (tag offset 555): Debug-formatting crashed the process (SIGSEGV/SIGABRT), Option/Result wrappers misread the value through the enum niche (found as D16 in round 0, kept open at first, repaired after the false-alarm audit showed how easily it is triggered)'),
  'fix18': (['C08'], 'deprecated BootInformation::elf_sections(): entry_size * shndx was multiplied in u32 - dev panicked on overflow, release wrapped and accepted (e.g. entry_size 40, shndx 0x80000000, n 0)'),
- 'fix17': (['C08','C09'], 'header tag iterator: after the controlled panic for a header tag with size 0..=7, polling the iterator again panicked again in dev but yielded the following tag in release (unchecked size - 8 in HeaderTagHeader::payload_len)'),
+ 'fix17': (['C08'], 'header tag iterator: after the controlled panic for a header tag with size 0..=7, polling the iterator again panicked again in dev but yielded the following tag in release (unchecked size - 8 in HeaderTagHeader::payload_len)'),
  'fix16': (['C10','C08'], 'calc_checksum(magic, arch, len) panicked (dev) whenever magic+arch+len > 2^32, e.g. calc_checksum(0xe85250d6, I386, 0x20000000); release wrapped correctly'),
 }
-findings = [{
-  "id": "D16", "property": "C01", "status": "open", "signature": "C01/vbe-memory-model",
-  "what": "VBEModeInfo.memory_model is an enum-typed public field: Debug-formatting a type-7 tag (size 784) whose memory-model byte (tag offset 555) is > 7 crashes the process (SIGSEGV in dev, SIGABRT/SIGSEGV in release); pinned input: minimal boot information with one VBE tag, byte 555 = 8",
-  "why_open": "the only sound repair changes the type of a public field of a public struct (semver-breaking); see DESIGN.md §6",
-}]
+findings = []
 for tag, commit, subj in fixes:
     ps, what = props[tag]
     for p in ps:
